@@ -32,7 +32,7 @@ def next_seq(s, n):
 
 class Batch:
     __slots__ = ("base", "last", "count", "pid", "epoch", "seq", "transactional", "control", "marker",
-                 "records", "ts_type", "max_ts", "magic", "raw", "append_time")
+                 "records", "ts_type", "max_ts", "magic", "raw", "append_time", "fixed")
 
     def __init__(self, **kw):
         for k in self.__slots__:
@@ -170,8 +170,27 @@ class PartitionLog:
                     out.append(r)
         return out
 
+    def prefill(self, raw, base, last, records, *, control=False, marker=None, transactional=False, pid=-1,
+                epoch=0, magic=2):
+        """store an already encoded batch (built by the reference codec) as it is"""
+        bt = Batch(base=base, last=last, count=len(records), pid=pid, epoch=epoch, seq=-1,
+                   transactional=transactional, control=control, marker=marker,
+                   records=[] if control else list(records), ts_type=0, magic=magic, raw=bytes(raw),
+                   append_time=-1, fixed=True)
+        self.batches.append(bt)
+        self.next_offset = last + 1
+        if transactional and not control and pid not in self.open_txn:
+            self.open_txn[pid] = base
+        if control:
+            first = self.open_txn.pop(pid, None)
+            if marker == "abort":
+                self.aborted.append((pid, first if first is not None else base, base))
+        return bt
+
     def encode_batch(self, b):
         """bytes of a stored batch with its assigned base offset (v2 only is re-encoded; legacy kept)"""
+        if b.fixed:
+            return b.raw
         if b.control:
             bld = DefaultRecordBatchBuilder(2, 0, is_transactional=1, producer_id=b.pid, producer_epoch=b.epoch,
                                             base_sequence=-1, batch_size=1 << 20)
@@ -634,6 +653,14 @@ class Cluster:
             return R(0, out)
         return R(0, 0, 0, out)
 
+    @staticmethod
+    def _fetch_has_data(resp, version):
+        for _t, parts in resp.topics:
+            for p in parts:
+                if p[1] != 0 or len(p[-1]) > 0:
+                    return True
+        return False
+
     def list_offsets(self, node, req, version):
         iso = getattr(req, "isolation_level", 0) if version >= 2 else 0
         out = []
@@ -852,7 +879,12 @@ class Cluster:
         if k == 0:
             return self.produce(node, req, v)
         if k == 1:
-            return self.fetch(node, req, v)
+            resp = self.fetch(node, req, v)
+            if not self._fetch_has_data(resp, v):
+                # long poll: nothing to return, wait max_wait_time and look again
+                await asyncio.sleep(max(req.max_wait_time, 1) / 1000)
+                resp = self.fetch(node, req, v)
+            return resp
         if k == 2:
             return self.list_offsets(node, req, v)
         if k == 10:
